@@ -1,4 +1,5 @@
 import EdzedProofs.Basic
 import EdzedProofs.Counter
+import EdzedProofs.DataLemmas
 import EdzedProofs.ErrorReg
 import EdzedProofs.Simulate
